@@ -289,3 +289,38 @@ def strip_abs(v, names):
     out = dict(v)
     out["map"] = m
     return out
+
+
+def deep_equal(a, b):
+    """structural equality of two Python object graphs (used to show that save() leaves its object alone)."""
+    import numpy as np
+    import torch
+    if type(a) is not type(b):
+        return False
+    if isinstance(a, np.ndarray):
+        return a.dtype == b.dtype and a.shape == b.shape and bool(np.array_equal(a, b, equal_nan=a.dtype.kind in "fc"))
+    if isinstance(a, torch.Tensor):
+        return a.dtype == b.dtype and a.shape == b.shape and a.requires_grad == b.requires_grad and \
+            a.is_contiguous() == b.is_contiguous() and bool(torch.equal(a.detach(), b.detach()))
+    if isinstance(a, np.random.Generator):
+        return str(a.bit_generator.state) == str(b.bit_generator.state)
+    if isinstance(a, dict):
+        return list(a) == list(b) and all(deep_equal(a[k], b[k]) for k in a)
+    if isinstance(a, (list, tuple)):
+        return len(a) == len(b) and all(deep_equal(x, y) for x, y in zip(a, b))
+    if isinstance(a, (set, frozenset)):
+        return a == b
+    if hasattr(a, "__dict__") and not isinstance(a, type):
+        try:
+            va, vb = vars(a), vars(b)
+        except TypeError:
+            return True
+        if set(va) != set(vb):
+            return False
+        return all(deep_equal(va[k], vb[k]) for k in va)
+    try:
+        r = a == b
+        return bool(r) if not hasattr(r, "all") else bool(r.all())
+    except Exception:  # noqa: BLE001
+        return True
+
